@@ -50,20 +50,23 @@ def feed(arg):
         for pred, _ in s.transition:
             pi = a.pidx(pred)
             if pi in a.stateful and id(pred) in p.predicate_map:
-                depths[pi] = extract.stateful_part(p.predicate_map[id(pred)]).depth
+                sp = extract.stateful_part(p.predicate_map[id(pred)])
+                depths[pi] = [sp.depth, bool(getattr(sp, "satisfied", False))]
     return {"next": a.sidx(r), "depths": depths}
 
 
 def model_step(a, q, d, c):
-    """The table semantics in Python (mirror of AutomatonSem.EnabledSet / NextD) for comparing."""
+    """The table semantics in Python (mirror of AutomatonSem.EnabledSet / NextD) for comparing.
+    d[p] = (depth, satisfied)."""
     out = [t for t in a.trans if t[0] == q]
-    opened = [t for t in out if a.open[(t[1], d[t[1]])]]
+    opened = [t for t in out if a.open[(t[1], d[t[1]][0], d[t[1]][1])]]
     out = opened or out
-    en = [t for t in out if a.acc[(t[1], d[t[1]], c)][0]]
+    en = [t for t in out if a.acc[(t[1], d[t[1]][0], d[t[1]][1], c)][0]]
     nd = dict(d)
     for t in out:
         if t[1] in a.stateful:
-            nd[t[1]] = max(-1, min(extract.MAXD, a.acc[(t[1], d[t[1]], c)][1]))
+            r = a.acc[(t[1], d[t[1]][0], d[t[1]][1], c)]
+            nd[t[1]] = (max(-1, min(extract.MAXD, r[1])), r[2])
     return en, nd
 
 
@@ -93,7 +96,7 @@ def run(tier: str) -> int:
     configs = []
     for st in read_dump(m.dump):
         d = st["d"]
-        d = {i + 1: x for i, x in enumerate(d)} if isinstance(d, tuple) else dict(d)
+        d = {i + 1: tuple(x) for i, x in enumerate(d)} if isinstance(d, tuple) else {k_: tuple(v) for k_, v in dict(d).items()}
         configs.append((st["k"], st["q"], d, tuple(st["path"])))
     log(f"[C15] M TokenAutomaton: {len(A)} automata, {len(configs)} reachable configurations, {len(amb_model)} ambiguous in the model, {m.wall_s}s")
 
@@ -102,7 +105,7 @@ def run(tier: str) -> int:
     jobs, meta = [], []
     for (k, q, d, path) in configs:
         a = A[k - 1]
-        if any(x >= extract.MAXD for x in d.values()):
+        if any(x[0] >= extract.MAXD for x in d.values()):
             continue  # saturated abstract depth: the witness path realises exactly MAXD, handled below as well
         for c in range(1, len(a.classes) + 1):
             for sub in subs:
@@ -136,7 +139,7 @@ def run(tier: str) -> int:
             raise MachineryError(f"model/code successor mismatch at {(a.desc, q, d, a.classes[c - 1])}: model {exp_next}, code {o['next']}")
         if en:
             for pi, dv in o["depths"].items():
-                if nd[pi] != max(-1, min(extract.MAXD, dv)):
+                if (nd[pi][0], nd[pi][1]) != (max(-1, min(extract.MAXD, dv[0])), dv[1]):
                     raise MachineryError(f"model/code counter mismatch at {(a.desc, q, d, a.classes[c - 1])}: model {nd}, code {o['depths']}")
     if len(amb_model) > 0 and code_amb == 0:
         raise MachineryError("TokenAutomaton reports ambiguous configurations that the real Pattern does not reproduce")
